@@ -66,7 +66,7 @@ mut("C01", "r3-unlocked-store", "modules/modules.go",
 mut("C01", "r3-foreign-store", "modules/mgmt.go",
     "func (m *Module) markDependencies() {", "func (m *Module) markDependencies() {\n\tm.Lock()\n\tm.status = StatusOffline\n\tm.Unlock()", "C01-R3|markDependencies")
 mut("C01", "r4-start-failure-stuck", "modules/modules.go",
-    "\t\t\tm.Lock()\n\t\t\tm.status = StatusOffline\n\t\t\tm.Unlock()\n\t\t\tm.Error(\n\t\t\t\tfmt.Sprintf(\"%s:start-failed\"", "\t\t\tm.Error(\n\t\t\t\tfmt.Sprintf(\"%s:start-failed\"", "C01-R4|start$2", comment="reverts fix b5f220d")
+    "\t\t\tm.status = StatusOffline\n\t\t\t// Cancel the context of the failed start", "\t\t\t// Cancel the context of the failed start", "C01-R4|start$2", comment="reverts fix b5f220d")
 mut("C01", "r4-stop-error-early-report", "modules/modules.go",
     "\t\tif err != nil {\n\t\t\t// Set error as module error.", "\t\tif err != nil {\n\t\t\treports <- &report{module: m, err: err}\n\t\t\treturn\n\t\t}\n\t\tif err != nil {\n\t\t\t// Set error as module error.", "C01-R4|stopAllTasks")
 mut("C01", "r5-manage-swap", "modules/mgmt.go",
@@ -780,7 +780,9 @@ mut("C10", "r5-unpack16-narrowed-untested", "formats/varint/varint.go",
 def from_patch(prop, name, seed, expect, comment="", rebased=False):
     """one mutant whose edits are the hunks of /verif/seeded/<seed>/patch.diff (old = context+removed, new = context+added)"""
     import re as _re
-    pf = os.path.join(V, "seeded", seed, "patch_rebased.diff" if rebased else "patch.diff")
+    pf = os.path.join(V, "seeded", seed, "patch_rebased.diff")
+    if not (rebased or os.path.exists(pf)) or not os.path.exists(pf):
+        pf = os.path.join(V, "seeded", seed, "patch.diff")
     edits, cur, file = [], None, None
     for line in open(pf).read().split("\n"):
         if line.startswith("+++ b/"):
@@ -1036,3 +1038,46 @@ mut("C08", "r13-database-name-returns-key", "database/record/base.go",
     "\treturn b.dbName\n", "\treturn b.dbKey\n", "C08-R13|database/record.(*Base).DatabaseName", comment="A16")
 mut("C20", "r10-text-returns-file", "log/logging.go",
     "\treturn ll.msg\n", "\treturn ll.file\n", "C20-R10|", comment="A16")
+
+def r9(prop, name, seed, expect):
+    from_patch(prop, name, seed, expect, comment="round-9 seed " + seed)
+r9("C02", "r21-cache-built-before-evict-handler", "C02-i1", "C02-R21|database.NewInterface")
+r9("C03", "r13-event-pushed-before-flags", "C03-i1", "C03-R13|runtime.pushModuleEvent")
+r9("C05", "r14-timeslot-wait-after-online-check", "C05-i1", "C05-R14|modules.(*Task).runWithLocking")
+r9("C05", "r15-shutdown-flag-before-lock", "C05-i2", "C05-R15|modules.Shutdown")
+r9("C06", "r17-stop-check-before-decrement", "C06-i1", "C06-R17|modules.(*Module).concludeMicroTask")
+r9("C06", "r18-format-calls-error-on-panic-value", "C06-i2", "C06-R18|")
+r9("C07", "r17-queue-notifies-before-push", "C07-i1", "C07-R17|modules.(*Task).Queue")
+r9("C07", "r18-repeat-zero-raised-to-minimum", "C07-i2", "C07-R18|modules.(*Task).Repeat")
+r9("C08", "r14-gencode-used-before-ok", "C08-i1", "C08-R14|formats/dsd.LoadAsFormat")
+r9("C08", "r14-gzip-reader-used-despite-error", "C08-i2", "C08-R14|formats/dsd.DecompressAndLoad")
+r9("C09", "r13-truncated-http-body-accepted", "C09-i2", "C09-R13|formats/dsd.loadFromHTTP")
+r9("C10", "r9-getascontainer-skips-before-check", "C10-i1", "C10-R9|container.(*Container).GetAsContainer")
+r9("C11", "r21-orderby-snippet-used-before-check", "C11-i1", "C11-R21|database/query.ParseQuery")
+r9("C12", "r17-authenticator-stored-before-claim", "C12-i1", "C12-R17|api.SetAuthenticator")
+r9("C12", "r11-read-permission-falls-back-to-write", "C12-i2", "C12-R11|api.(*endpointHandler).ReadPermission ~ api.(*endpointHandler).WritePermission")
+r9("C13", "r15-delete-uses-controller-before-check", "C13-i1", "C13-R15|database.(*Interface).Delete")
+r9("C13", "r16-getaccessor-typed-nil", "C13-i2", "C13-R16|database/record.(*Wrapper).GetAccessor")
+r9("C18", "r8-sig-fetched-before-scope-check", "C18-i1", "C18-R8|updater.(*ResourceRegistry).fetchMissingSig")
+r9("C18", "r8-scope-check-failure-only-logged", "C18-i2", "C18-R8|updater.(*ResourceRegistry).fetchFile")
+r9("C19", "r18-available-despite-failed-download", "C19-i1", "C19-R18|")
+r9("C19", "r19-addresources-stops-at-first-error", "C19-i2", "C19-R19|")
+r9("C20", "r12-pkg-levels-active-before-map", "C20-i1", "C20-R12|log.SetPkgLevels")
+r9("C20", "r13-start-returns-before-writer", "C20-i2", "C20-R13|log.Start")
+r9("C02", "r20-delete-uses-controller-before-check", "C13-i1", "C02-R20|database.(*Interface).Delete")
+r9("C04", "r13-empty-string-treated-as-unset", "C04-i2", "C04-R13|")
+
+mut("C01", "r15-start-abort-returns-at-once", "modules/start.go",
+    "\t\t\t\t// Wait for the starts that are still under way. Returning now would\n\t\t\t\t// leave their modules in the starting state, where a shutdown cannot\n\t\t\t\t// stop them, and they would come online after it.\n\t\t\t\tfor reportCnt++; reportCnt < execCnt; reportCnt++ {\n\t\t\t\t\tif other := <-reports; other.err != nil {\n\t\t\t\t\t\tother.module.NewErrorMessage(\"start module\", other.err).Report()\n\t\t\t\t\t}\n\t\t\t\t}\n", "",
+    "C01-R15|modules.startModules / return #1", comment="reverts fix cf69098")
+mut("C01", "r15-drain-stops-one-short", "modules/start.go",
+    "for reportCnt++; reportCnt < execCnt; reportCnt++ {", "for reportCnt++; reportCnt < execCnt-1; reportCnt++ {",
+    "C01-R15|modules.startModules / return #1", comment="the drain loop leaves one start under way")
+
+mut("C07", "r19-queue-handler-waits-for-start-alone", "modules/tasks.go",
+    "\t\t\tselect {\n\t\t\tcase <-t.module.StartCompleted():\n\t\t\t\tonline = true\n\t\t\tcase <-t.module.Stopping():\n\t\t\t\t// the start failed (or the module is stopped again)\n\t\t\t}\n",
+    "\t\t\t<-t.module.StartCompleted()\n\t\t\tonline = true\n",
+    "C07-R19|modules.(*Task).runWithLocking", comment="reverts fix 6c1d6d3")
+mut("C06", "r19-failed-start-keeps-context", "modules/modules.go",
+    "\t\t\t// Cancel the context of the failed start: whatever the start function\n\t\t\t// already launched is told to stop, and tasks waiting for this module\n\t\t\t// to come online are released.\n\t\t\tm.cancelCtx()\n", "",
+    "C06-R19|modules.(*Module).start$2", comment="reverts fix 6c1d6d3")
